@@ -93,6 +93,8 @@ impl Method for SWMA {
 	#[inline]
 	fn next(&mut self, &value: &Self::Input) -> Self::Output {
 		if self.right_window.is_empty() {
+			// `length == 1`: the output is the input itself; keep it for `peek`
+			self.numerator = value;
 			return value;
 		}
 
